@@ -302,6 +302,96 @@ def coq_ifexpr(e):
     return "(ICmp %s %s %s)" % (op, coq_sexpr(e[2]), coq_sexpr(e[3]))
 
 
+# ------------------------------------------------------------------ Coq AST (C17/Spec.v)
+META_ALL = '\\"\'$:-+},)'
+
+
+def canon_items(items, in_dq=False):
+    """normalise a Python AST into the well-formed shape of Spec.v (wf_items):
+    no empty literals, no double-quoted string directly inside another, a bare
+    variable only where the following text cannot continue its name"""
+    out = []
+    for it in items:
+        k = it[0]
+        if k == "lit":
+            if it[1]:
+                out.append(it)
+        elif k == "sq":
+            out.append(it)
+        elif k == "dq":
+            inner = canon_items(it[1], True)
+            if in_dq:
+                out.extend(inner)          # same value: contents spliced into the surrounding string
+            else:
+                out.append(("dq", inner))
+        elif k == "bare":
+            out.append(it)
+        elif k == "var":
+            op = it[2]
+            out.append(("var", canon_items(it[1]), None if op is None else (op[0], op[1], canon_items(op[2]))))
+        elif k == "call":
+            out.append(("call", [canon_items(w) for w in it[1]]))
+    # bare variable followed by a name character -> braced form (same documented value)
+    res = []
+    for i, it in enumerate(out):
+        if it[0] == "bare" and i + 1 < len(out):
+            nxt = canon_text([out[i + 1]])
+            if nxt and nxt[0] in NAME_CHARS:
+                it = ("var", [("lit", it[1])], None)
+        res.append(it)
+    return res
+
+
+def canon_text(items):
+    """r_items of Spec.v"""
+    out = []
+    for it in items:
+        k = it[0]
+        if k == "lit":
+            out.append("".join("\\" + ch if ch in META_ALL else ch for ch in it[1]))
+        elif k == "sq":
+            out.append("'" + it[1] + "'")
+        elif k == "dq":
+            out.append('"' + canon_text(it[1]) + '"')
+        elif k == "bare":
+            out.append("$" + it[1])
+        elif k == "var":
+            op = it[2]
+            o = "" if op is None else ((":" if op[1] else "") + op[0] + canon_text(op[2]))
+            out.append("${" + canon_text(it[1]) + o + "}")
+        elif k == "call":
+            out.append("$(" + ",".join(canon_text(w) for w in it[1]) + ")")
+    return "".join(out)
+
+
+def coq_items(items):
+    r = "INil"
+    for it in reversed(items):
+        r = "(ICons %s %s)" % (coq_item(it), r)
+    return r
+
+
+def coq_item(it):
+    k = it[0]
+    if k == "lit":
+        return "(ILit %s)" % L.s(it[1])
+    if k == "sq":
+        return "(ISq %s)" % L.s(it[1])
+    if k == "dq":
+        return "(IDq %s)" % coq_items(it[1])
+    if k == "bare":
+        return "(IBare %s)" % L.s(it[1])
+    if k == "var":
+        op = it[2]
+        o = "ONone" if op is None else "(OBody %s %s %s)" % (L.B(op[1]), L.B(op[0] == "+"), coq_items(op[2]))
+        return "(IVar %s %s)" % (coq_items(it[1]), o)
+    ws = it[1]
+    r = "(WOne %s)" % coq_items(ws[-1])
+    for w in reversed(ws[:-1]):
+        r = "(WCons %s %s)" % (coq_items(w), r)
+    return "(ICall %s)" % r
+
+
 # ------------------------------------------------------------------ if-expressions
 def gen_sexpr(rng, depth, cx):
     if depth <= 0 or rng.random() < 0.6:
@@ -450,6 +540,8 @@ def run(ctx):
 
     cases = []      # (coq_in, coq_expected)
     meta = []       # python-side description for reporting
+    ast_cases = []  # (ctx, Coq AST) -> (implementation result on Coq's rendering, that rendering)
+    ast_meta = []
     corpus = load_corpus()
     # ---- (0) corpus of past failures, (a) rendered ASTs
     todo = [("corpus", c) for c in corpus] + [("ast", None)] * n_ast
@@ -490,6 +582,17 @@ def run(ctx):
         if r[0] != "internal":
             cases.append(("(cx%d, %s)" % (ci, L.s(text)), coq_res_str(r)))
             meta.append({"cx": cx, "text": text, "impl": r})
+        # the same tree in the well-formed shape of the Coq specification: implementation on Coq's rendering
+        if items is not None and kind == "ast" and len(ast_cases) < n_ast // 2:
+            cit = canon_items(items)
+            ctext = canon_text(cit)
+            r2 = impl_subst(cx, ctext)
+            ctx.evaluated(); ctx.count("spec:" + r2[0])
+            if r2[0] == "internal":
+                ctx.violation("internal-exception:" + r2[1], "substitute raised %s" % r2[1], {"cx": cx, "text": ctext})
+            else:
+                ast_cases.append(("(cx%d, %s)" % (ci, coq_items(cit)), "(%s, %s)" % (coq_res_str(r2), L.s(ctext))))
+                ast_meta.append({"cx": cx, "text": ctext, "impl": r2})
         if len(ctx.cov["samples"]) < 3:
             ctx.sample({"text": text, "env": cx["env"], "impl": r})
     # ---- (b) raw strings
@@ -517,6 +620,36 @@ def run(ctx):
             ctx.tie_broken("parse-correspondence", {"text": m["text"], "cx": m["cx"], "impl": m["impl"]})
         if bad:
             ctx.count("subst-model-mismatch", len(bad))
+    # the character-level machine (C17/Machine.v) on the same cases
+    bad, log = coq.run_cases(ctx, ["BobV.C17.Model", "BobV.C17.Machine"], "(fun i => parseM (fst i) (snd i))", "res_eqb_str", cases,
+                             preamble=PRE_EQB + pre, tag="machine")
+    if bad is None:
+        ctx.tie_broken("C17 machine evaluation failed", log)
+    else:
+        ctx.validated(len(cases) - len(bad))
+        ctx.count("machine-cases", len(cases))
+        for i in bad[:10]:
+            m = meta[i]
+            ctx.tie_broken("machine-correspondence", {"text": m["text"], "cx": m["cx"], "impl": m["impl"]})
+
+    # the documented semantics as stated in Coq (C17/Spec.v): e_items = implementation, r_items = harness rendering,
+    # every generated tree is well-formed, and the machine agrees (parse_render is a theorem; this ties its
+    # statement to the implementation)
+    spec_pre = PRE_EQB + pre + """
+Definition spec_case (i : ctx * items) : bool * res str * str * res str :=
+  (wf_items (snd i), e_items (fst i) true (snd i), r_items (snd i), parseM (fst i) (r_items (snd i))).
+Definition spec_ok (o : bool * res str * str * res str) (e : res str * str) : bool :=
+  let '(wf, v, t, m) := o in wf && res_eqb_str v (fst e) && str_eqb t (snd e) && res_eqb_str m (fst e).
+"""
+    bad, log = coq.run_cases(ctx, ["BobV.C17.Model", "BobV.C17.Machine", "BobV.C17.Spec"], "spec_case", "spec_ok", ast_cases,
+                             preamble=spec_pre, tag="spec")
+    if bad is None:
+        ctx.tie_broken("C17 spec evaluation failed", log)
+    else:
+        ctx.validated(len(ast_cases) - len(bad))
+        ctx.count("spec-cases", len(ast_cases))
+        for i in bad[:10]:
+            ctx.tie_broken("spec-correspondence", ast_meta[i])
 
     # ---- (c) if-expressions
     cases = []; meta = []
